@@ -48,3 +48,9 @@ Proof.
   destruct I1 as [E|[]]. injection E as <-. rewrite V in V1. injection V1 as <-. rewrite D in D1. injection D1 as <-.
   apply Hne. rewrite A1, A2, A3. reflexivity.
 Qed.
+(* whatever the caller proposes and the BMC confirms, a session exists only for an implemented suite: every other
+   authentication, integrity or confidentiality number ends in an error (never a fault: C05_handshake), with no session *)
+Theorem C12_only_implemented_suites : forall o s random sc1 sc2 sc3 sent e,
+  new_session o s random sc1 sc2 sc3 = (sent, inl e) ->
+  In (su_auth s) [1; 2; 3] /\ In (su_integ s) [1; 2; 4] /\ su_conf s = 1.
+Proof. exact new_session_implemented. Qed.
